@@ -98,6 +98,17 @@ fn site_file(loc: &str) -> String {
     f.split(':').next().unwrap_or(f).to_string()
 }
 
+/// Crash-marker file of a shard (rewritten before every run): on tmpfs when there is one, so that
+/// it costs no disk I/O.
+fn marker_path(out: &Path) -> String {
+    let name = out.file_name().map(|f| f.to_string_lossy().into_owned()).unwrap_or_default();
+    if Path::new("/dev/shm").is_dir() {
+        format!("/dev/shm/verif-e5-{}-{name}.cur", std::process::id())
+    } else {
+        format!("{}.cur", out.display())
+    }
+}
+
 fn hash_line(stdout: &str) -> Option<String> {
     stdout.lines().find_map(|l| l.find("HASH ").map(|p| l[p + 5..].trim().to_string()))
 }
@@ -193,12 +204,13 @@ pub fn run(prop: &str, args: &Args) -> LegResult {
         for &i in &todo {
             let out = outdir.join(format!("{prop}-{}-{i}.json", args.seed));
             let _ = std::fs::remove_file(&out);
-            let _ = std::fs::remove_file(format!("{}.cur", out.display()));
+            let _ = std::fs::remove_file(marker_path(&out));
             let mut envs = base.clone();
             envs.push(("VERIF_E5_SHARD", format!("{i}/{k}")));
             envs.push(("VERIF_E5_OUT", out.display().to_string()));
             envs.push(("VERIF_E5_START", starts[i as usize].to_string()));
             envs.push(("VERIF_E5_HASHN", st_n.to_string()));
+            envs.push(("VERIF_E5_MARKER", marker_path(&out)));
             if let Some(r) = args.runs {
                 envs.push(("VERIF_E5_RUNS", r.to_string()));
             }
@@ -221,7 +233,7 @@ pub fn run(prop: &str, args: &Args) -> LegResult {
             let se = String::from_utf8_lossy(&o.stderr);
             if !o.status.success() {
                 // aborted by a panic inside the simulator dylib? then the marker names the run
-                let cur = std::fs::read_to_string(format!("{}.cur", out.display())).unwrap_or_default();
+                let cur = std::fs::read_to_string(marker_path(&out)).unwrap_or_default();
                 let f: Vec<&str> = cur.split_whitespace().collect();
                 match (panic_site(&se), f.len() == 3) {
                     (Some((loc, msg)), true) if site_in_sut(&loc) => {
